@@ -67,6 +67,8 @@ def make_installation(gen, rnd, *, modes=None, fans=None, ac_ids=None, sensors=N
     for z in inst["zones"]:
         st = z["status"]
         st["sensor"] = (rnd.random() < 0.6) if sensors is None else sensors
+        # a zone with a sensor may be under either control method when the call is made
+        st["control_method"] = "temperature" if st["sensor"] and rnd.random() < 0.5 else "damper"
         if gen == 4:
             st["turbo_support"] = (rnd.random() < 0.5) if turbo is None else turbo
     return inst
